@@ -172,6 +172,11 @@ def generate(seed: int, tier: str) -> Dict[str, Any]:
         # the free-form `flags` section accepts anything - also what only YAML can spell, and containers of it
         muts.append({"kind": "set", "path": ["flags", r.choice(["d", "since", "x"])],
                      "value": {"$yaml": r.choice(["date", "set", "datetime", "binary", "list_of_set", "dict_of_date", "date_keyed", "tuple_keyed"])}})
+    if r.chance(0.08):
+        # the decay section is checked key by key for the knobs the engine knows; whatever else it holds goes along with the
+        # section into T1's cache key
+        muts.append({"kind": "set", "path": ["t1", "decay", r.choice(["since", "x", "note"])],
+                     "value": {"$yaml": r.choice(["date", "set", "datetime", "binary", "dict_of_date", "date_keyed", "tuple_keyed"])}})
     if r.chance(0.06):
         # a rejected value whose text representation contains a set inside a container
         muts.append({"kind": "set", "path": [r.choice(["version", "t2"])] if r.chance(0.5) else ["t2", "backend"], "value": {"$yaml": "list_of_set"}})
